@@ -53,6 +53,11 @@ PROPS = {
                 'prepare_eval is not under contract (compiler); rand/time builtins excluded by the property',
             ]},
     'C09': {'groups': ['num'], 'search': 'search_num',
+            'kani': [
+                {'harness': 'num_is_zero_fixnum', 'file': 'src/number.rs', 'kind': 'complete', 'what': 'Number::is_zero() == (value == 0) for every fixnum'},
+                {'harness': 'num_is_zero_rational', 'file': 'src/number.rs', 'kind': 'complete', 'what': 'Number::is_zero() == (numerator == 0) for every Rational32 with positive denominator'},
+                {'harness': 'num_is_zero_bigint_i64', 'file': 'src/number.rs', 'kind': 'bounded', 'bound': 'bignums whose value fits i64 (unwind 4, unwinding assertions on)', 'what': 'Number::is_zero() on a bignum == (value == 0)'},
+            ],
             'assumptions': [
                 'assumed specifications of BigInt / Ratio comparison (axiom_big_eq, axiom_big_cmp, axiom_r32_eq, axiom_r32_cmp) as the mathematical order of their values',
                 'comparisons in which one operand is a Float are not decided (exec `as f64` casts are havoc to Verus): only panic-freedom of those arms is proved',
